@@ -545,6 +545,9 @@ impl Sim {
                                     ":after_a_vote_for_a_candidate_whose_log_was_behind_the_voters"
                                 } else if self.sub_quorum_commits > 0 {
                                     ":after_a_leader_committed_with_fewer_than_a_quorum_of_replicas_on_its_record"
+                                } else if *any < quorum {
+                                    // on the unchanged tree the replicas a leader counts always hold *some* entry at that index
+                                    ":the_leader_had_committed_it_when_fewer_than_a_majority_of_nodes_held_any_entry_at_that_index"
                                 } else {
                                     ""
                                 }
